@@ -325,6 +325,10 @@ PROPS["C10"] = {
         ("R-WHO-WRITES", rp2.rule_who_writes, {}),
         ("R-DEF-INIT", rp2.rule_def_init, {}),
         ("R-JAC-ABSENT", rules_err.rule_jac_absent, {}),
+        # the crate's own model is part of the state: it has no hidden state, and a refused parameter vector is not stored
+        # (otherwise the next update is judged against it: the reported state depends on the failed call before)
+        ("R-MODEL-SEALED", rm.rule_model_sealed, {}),
+        ("R-ERR-STATE-PRESERVING", rm.rule_err_state_preserving, {}),
     ],
     "explanation": "Cache written only as a whole value on every path through set_params, built from terms of the same invocation with no read of the previous cache; no interior mutability in state types; "
                    "each uninitialised result matrix (exactly the reviewed unsafe sites, or private helpers reached only from them) is proven fully overwritten before any success return: a full-column write col(A,k) with k the counter of an iteration whose extent covers ncols(A), executed on every non-failing path of every iteration (through helpers), a lazily mapped closure driven to completion, success only after exhaustion — decided on canonical column writes (tab.py) of the merged body (inline.py).",
